@@ -38,6 +38,22 @@ def gen_scenario(rng, features):
     for i in range(nfields):
         fields[f"f{i + 1}"] = pick(rng, CONT + ["w3", "w3", "wtheta"] +
                                    CONT[:2])
+    vectors = {}
+    if "vector" in features and rng.random() < 0.35:
+        # one field becomes a field vector: in the scenario model its
+        # components are fields of their own (f2_1, f2_2, ...) that kernels
+        # always receive together; in the Fortran it is declared f2(k)
+        base = pick(rng, sorted(fields))
+        size = pick(rng, [2, 3])
+        space = fields.pop(base)
+        for i in range(size):
+            fields[f"{base}_{i + 1}"] = space
+        vectors[base] = size
+    comp_of = {f"{b}_{i + 1}": b for b, k in vectors.items()
+               for i in range(k)}
+    # units a kernel argument can be: plain fields and whole vectors
+    units = sorted(set(comp_of.get(f, f) for f in fields))
+    plain = [f for f in sorted(fields) if f not in comp_of]
     names = sorted(fields)
     kernels = []
     calls = []
@@ -47,8 +63,11 @@ def gen_scenario(rng, features):
             bname = pick(rng, sorted(BUILTINS))
             info = BUILTINS[bname]
             # all field args of a built-in must be on the same space
-            space = pick(rng, sorted(set(fields.values())))
-            cands = [f for f in names if fields[f] == space]
+            space = pick(rng, sorted(set(fields[f] for f in plain) or
+                                     set(fields.values())))
+            cands = [f for f in plain if fields[f] == space]
+            if not cands:
+                continue
             if len(cands) < info["fields"]:
                 # allow the same field several times only where legal
                 if info["fields"] > 1 and len(cands) < 2:
@@ -64,12 +83,13 @@ def gen_scenario(rng, features):
                                                "a"])})
             continue
         kname = f"k{len(kernels) + 1}"
-        nargs = rng.randint(1, min(4, nfields))
-        chosen = rng.sample(names, nargs)
+        nargs = rng.randint(1, min(4, len(units)))
+        chosen = rng.sample(units, nargs)
         args = []
         updated = False
         order = list(chosen)
-        for pos, fname in enumerate(order):
+        for pos, unit in enumerate(order):
+            fname = unit if unit in fields else unit + "_1"
             space = fields[fname]
             want_update = (pos == 0) or rng.random() < 0.25
             if is_cont(space):
@@ -103,8 +123,14 @@ def gen_scenario(rng, features):
                     rng.random() < 0.35:
                 stencil = {"type": pick(rng, ["cross", "region", "x1d"]),
                            "extent": pick(rng, ["ext", 1, 2, "ext"])}
-            args.append({"field": fname, "access": acc, "space": aspace,
-                         "stencil": stencil})
+            if unit in vectors:
+                for i in range(vectors[unit]):
+                    args.append({"field": f"{unit}_{i + 1}", "access": acc,
+                                 "space": aspace, "stencil": stencil,
+                                 "vec": [unit, i + 1, vectors[unit]]})
+            else:
+                args.append({"field": fname, "access": acc, "space": aspace,
+                             "stencil": stencil})
         has_scalar = rng.random() < 0.3
         kern = {"name": kname, "args": args, "scalar": has_scalar}
         if "operator" in features and rng.random() < 0.3:
@@ -118,8 +144,11 @@ def gen_scenario(rng, features):
                             "to": sp, "from": pick(rng, [sp, "w3"])}]
         kernels.append(kern)
         calls.append({"kern": kname})
-    return {"fields": fields, "kernels": kernels, "calls": calls,
-            "annexed": rng.random() < 0.5}
+    scn = {"fields": fields, "kernels": kernels, "calls": calls,
+           "annexed": rng.random() < 0.5}
+    if vectors:
+        scn["vectors"] = vectors
+    return scn
 
 
 def kernel_text(kern):
@@ -129,7 +158,12 @@ def kernel_text(kern):
     if kern["scalar"]:
         entries.append("arg_type(gh_scalar, gh_real, gh_read)")
     for a in kern["args"]:
-        ent = f"arg_type(gh_field, gh_real, {a['access']}, {a['space']}"
+        ftype = "gh_field"
+        if a.get("vec"):
+            if a["vec"][1] != 1:
+                continue            # components 2..k ride with the first
+            ftype = f"gh_field*{a['vec'][2]}"
+        ent = f"arg_type({ftype}, gh_real, {a['access']}, {a['space']}"
         if a["stencil"]:
             ent += f", stencil({a['stencil']['type']})"
         ent += ")"
@@ -155,8 +189,17 @@ def kernel_text(kern):
     return "\n".join(lines)
 
 
+def _field_decls(scn, names_only=False):
+    vectors = scn.get("vectors", {})
+    comps = {f"{b}_{i + 1}" for b, k in vectors.items() for i in range(k)}
+    out = [f for f in sorted(scn["fields"]) if f not in comps]
+    for base in sorted(vectors):
+        out.append(base if names_only else f"{base}({vectors[base]})")
+    return sorted(out)
+
+
 def alg_text(scn):
-    fields = sorted(scn["fields"])
+    fields = _field_decls(scn, names_only=True)
     uses = "\n".join(f"  use {k['name']}_mod, only: {k['name']}_type"
                      for k in scn["kernels"])
     calls = []
@@ -181,7 +224,12 @@ def alg_text(scn):
             if kern["scalar"]:
                 args.append("a")
             for a in kern["args"]:
-                args.append(a["field"])
+                if a.get("vec"):
+                    if a["vec"][1] != 1:
+                        continue
+                    args.append(a["vec"][0])
+                else:
+                    args.append(a["field"])
                 if a["stencil"]:
                     args.append(str(a["stencil"]["extent"]))
             for op in kern.get("ops", []):
@@ -203,7 +251,7 @@ def alg_text(scn):
   implicit none
 contains
   subroutine alg({', '.join(fields)})
-    type(field_type), intent(inout) :: {', '.join(sorted(scn["fields"]))}
+    type(field_type), intent(inout) :: {', '.join(_field_decls(scn))}
 {opdecl}    real(r_def) :: a
     integer(i_def) :: ext
     call invoke( {body}, &
